@@ -532,10 +532,11 @@ class InProtocolBase(ProtocolMixin):
         days += int(duration['years']) * 365
         hours = int(duration['hours'])
         minutes = int(duration['minutes'])
-        seconds = float(duration['seconds'])
-        f, i = modf(seconds)
+        # exact decimal arithmetic: binary floats truncate e.g. '0.000249' to 248us
+        seconds = D(duration['seconds'])
+        i = int(seconds)
+        microseconds = int((seconds - i) * 1000000)
         seconds = i
-        microseconds = int(1e6 * f)
 
         delta = timedelta(days=days, hours=hours, minutes=minutes,
             seconds=seconds, microseconds=microseconds)
